@@ -676,3 +676,55 @@ fn c05_txt_parsed_value_is_usable() {
     }
     kani::cover!(raw.n == 0 && Txt::parse(&mut Parser::from_ref(raw.s())).is_ok(), "empty TXT RDATA accepted by the reader");
 }
+
+// @funcs: SvcParams::from_octets, SvcParams::check_slice, SvcbRdata::new, SvcbRdata::{compose_rdata,rdlen,compose_len_rdata,compose_canonical_rdata}
+// @bound: SVCB values with any priority (alias mode 0 included), a one-label target with a symbolic octet and a parameter sequence of 0..=6 symbolic octets: the sequence is accepted <=> it consists of complete (key, length, value) entries with strictly ascending keys; the RDATA is priority || uncompressed target || the parameter octets verbatim, rdlen and the length prefix equal the octets written, the canonical form is identical (RFC 9460: the target is not lower-cased)
+// @outside: parse side (SvcParams::parse after a ParsedName), typed parameter values, presentation format (SvcParams::scan cannot be compiled by kani-compiler 0.68)
+#[kani::proof]
+#[kani::unwind(14)]
+fn c05_svcb_compose() {
+    use domain::rdata::svcb::{SvcParams, Svcb};
+    let prio: u16 = kani::any();
+    let f = FlatName::any::<1, 0>();
+    let d = Bytes::<6>::any();
+    // reference: complete entries, ascending keys
+    let mut pos = 0usize;
+    let mut ok = true;
+    let mut last: Option<u16> = None;
+    let mut k = 0;
+    while k < 2 && pos < d.n {
+        if pos + 4 > d.n {
+            ok = false;
+            break;
+        }
+        let key = (d.d[pos] as u16) << 8 | d.d[pos + 1] as u16;
+        let len = ((d.d[pos + 2] as usize) << 8) | d.d[pos + 3] as usize;
+        if let Some(l) = last {
+            if key <= l {
+                ok = false;
+                break;
+            }
+        }
+        last = Some(key);
+        if pos + 4 + len > d.n {
+            ok = false;
+            break;
+        }
+        pos += 4 + len;
+        k += 1;
+    }
+    match SvcParams::from_octets(d.s()) {
+        Ok(params) => {
+            assert!(ok && pos == d.n);
+            let v: Svcb<&[u8], Name<&[u8]>> = Svcb::new(prio, f.name(), params).unwrap();
+            let (buf, cb) = compose_checks!(v);
+            assert!(buf.len == 2 + f.n + d.n);
+            assert!(buf.data[0] == (prio >> 8) as u8 && buf.data[1] == prio as u8);
+            assert!(has(&buf.data, 2, &f.w[..f.n]));
+            assert!(has(&buf.data, 2 + f.n, d.s()));
+            assert!(has(&cb.data, 0, &buf.data[..buf.len]));
+            kani::cover!(prio == 0 && d.n == 5, "alias mode with one parameter");
+        }
+        Err(_) => assert!(!ok),
+    }
+}
